@@ -60,6 +60,13 @@ theorem c20_channel_keys {W : Type} (P : Prims W) (L : ChannelLaws P) (a b ida i
   refine ⟨shared_eq P L a b ida idb, h2, h3, ?_⟩
   rw [h1]; exact h4
 
+/-- `bytesLt` is Python's strict order on `bytes`: asymmetric, and "neither smaller nor greater" is equality —
+so the three branches of `__init__` are exactly `local_id > peer_id`, `local_id < peer_id`, `local_id == peer_id`. -/
+theorem c20_id_order (a b : Bytes) :
+    (bytesLt a b = true → bytesLt b a = false) ∧
+    ((bytesLt a b = false ∧ bytesLt b a = false) ↔ a = b) :=
+  ⟨bytesLt_asymm a b, ⟨fun h => bytesLt_total a b h.1 h.2, fun h => by subst h; exact ⟨bytesLt_irrefl a, bytesLt_irrefl a⟩⟩⟩
+
 /-- the self channel (same seed, equal ids): what the object encrypts it also decrypts. -/
 theorem c20_self_channel {W : Type} (P : Prims W) (L : ChannelLaws P) (a id m : Bytes) :
     ∃ body, (chanOf P a a id id).encrypt P m =
@@ -216,6 +223,9 @@ example :
 example : verifySign toy [9, 9] [1, 2] (signMessage toy [1, 2] (toy.keypair [9, 9]).2) = true ∧
     verifySign toy [9, 9] [1, 3] (signMessage toy [1, 2] (toy.keypair [9, 9]).2) = false := by
   decide +kernel
+
+example : bytesLt [1] [1, 0] = true ∧ bytesLt [0x7f, 9] [0x80] = true ∧ bytesLt [] [] = false ∧ bytesLt [2] [1, 9] = false := by
+  decide
 
 /-- a short key makes `encrypt` raise (the `none` branch is reachable, the guard is not decoration). -/
 example : cipherParams (List.replicate 31 0) (List.replicate 32 0) = none ∧
